@@ -14,6 +14,7 @@ structure PCtx.WFS (K : PCtx) (exitJ : Nat) : Prop extends K.WF where
   loc_inj : ∀ n m a, K.loc n = some a → K.loc m = some a → n = m
   const_sep : ∀ v l j k n a, (v, l) ∈ K.consts → K.env.ds[j]? = some (.label k l) → K.loc n = some a →
     K.env.addr j / 4 ≠ a
+  loc_ne_link : ∀ n a, K.loc n = some a → a ≠ K.sp + K.S
   exit_lbl : ∃ k, K.env.ds[exitJ]? = some (.label k K.ctx.exitLabel)
   stop_ok : K.sp + 2 < memWords ∧ K.env.isCode (K.sp + 2) = false
 
@@ -53,11 +54,7 @@ def okS : X.Stmt → Bool
   | .while c b => pureE c && okS b
   | .seq ss => okSL ss
   | .assign _ e => pureE e
-  | .syscall id args =>
-    match id, args with
-    | 0, [e] => pureE e
-    | 1, [e, s] => pureE e && leafE s
-    | _, _ => false
+  | .syscall id args => decide (id < 3) && args.all pureE
   | _ => false
 def okSL : List X.Stmt → Bool
   | [] => true
@@ -82,7 +79,18 @@ theorem Rep.assign {K : PCtx} {exitJ : Nat} (wf : K.WFS exitJ) {σ σ' : X.St} {
     (hr : Rep K σ mem) (hw : X.writeName K.xc σ n w = .ok σ') (hloc : K.loc n = some a) :
     Rep K σ' (mem.write a w) := by
   obtain ⟨ha2, halt, _⟩ := wf.loc_ok n a hloc
-  refine ⟨?_, fun m c hm => (hr.vals m c hm).write hw, ?_, ?_⟩
+  refine ⟨?_, fun m c hm => (hr.vals m c hm).write hw, ?_, ?_, ?_, ?_⟩
+  rotate_left 3
+  · intro m hv
+    apply hr.locs m
+    unfold IsVar at hv ⊢
+    rcases writeName_cases K.xc σ σ' n w hw with ⟨o, hl, rfl⟩ | ⟨hl, hg, rfl⟩
+    · simp only [lookup_setAssoc] at hv
+      by_cases hmn : m = n
+      · subst hmn; exact Or.inl ⟨o, hl⟩
+      · simpa [hmn] using hv
+    · exact hv
+  · rw [Mem.read_write_other _ _ _ _ (wf.loc_ne_link n a hloc)]; exact hr.link
   · rw [Mem.read_write_other _ _ _ _ (by omega)]; exact hr.sp
   · intro m w' hm hrd
     by_cases hmn : m = n
@@ -108,19 +116,14 @@ theorem exec_assignTail (K : PCtx) (exitJ : Nat) (wf : K.WFS exitJ) (n : String)
   obtain ⟨ha2, halt, hcode⟩ := wf.loc_ok n a hloc
   unfold assignTail at hat ⊢
   by_cases hs : sym.scope = ""
-  · obtain ⟨j, k, hd, hal, hloc'⟩ := wf.var_global n sym hl hs
-    rw [hloc] at hloc'
-    simp only [Option.some.injEq] at hloc'
+  · obtain ⟨j, k, hd, hal, hloc'⟩ := wf.var_global n sym a hl hs hloc
     have hli := labelIdx_of_nodup _ _ _ _ wf.nodup hd
     simp only [hs, if_true, PCtx.low, lowerCode_cons, lowerOne_dir, lowerCode_nil, lSTAM, List.append_nil] at hat ⊢
     have hst : IAm.store K.env mem (BitVec.ofNat 32 (K.env.addr j / 4)) w = some (mem.write a w) := by
       rw [← hloc']; exact store_ofNat _ _ _ _ halt hcode
     have := Step.stamL (env := K.env) (cfg i w b mem) io _ j _ hat.head hli hal hst
     exact ⟨b, Steps.one (by simpa using this)⟩
-  · obtain ⟨hfr, ad', hadr, hloc'⟩ := wf.var_local n sym hl hs
-    rw [hloc] at hloc'
-    simp only [Option.some.injEq] at hloc'
-    subst hloc'
+  · obtain ⟨hfr, hadr⟩ := wf.var_local n sym a hl hs hloc
     have hS : (frameOf K.out K.ctx.frame).size = K.S := rfl
     have hsl := slot_addr K.sp K.S sym.stackOffset a hadr
     simp only [hs, if_false, PCtx.low, lowerCode_cons, lowerOne_dir, lowerOne_fb, lowerCode_nil, iLDBM,
@@ -128,7 +131,9 @@ theorem exec_assignTail (K : PCtx) (exitJ : Nat) (wf : K.WFS exitJ) (n : String)
     have s1 := Step.ldbm (env := K.env) (cfg i w b mem) io 1 _ hat.head (ld_one mem)
     have hst : IAm.store K.env mem (mem.read 1 + IAm.W ((K.S : Int) - 1 + sym.stackOffset)) w = some (mem.write a w) := by
       rw [hr.sp, hsl]; exact store_ofNat _ _ _ _ halt hcode
-    have s2 := Step.stai (env := K.env) (cfg (i + 1) w (mem.read 1) mem) io _ _ hat.tail.head hst
+    have hne1 : (mem.read 1 + IAm.W ((K.S : Int) - 1 + sym.stackOffset)).toNat ≠ 1 := by
+      rw [hr.sp, hsl]; exact ofNat_toNat_ne_one _ ha2 halt
+    have s2 := Step.stai (env := K.env) (cfg (i + 1) w (mem.read 1) mem) io _ _ hat.tail.head hst hne1
     exact ⟨mem.read 1, Steps.step _ _ _ _ _ _ s1 (Steps.one s2)⟩
 
 /-! ### Outcomes -/
